@@ -10,6 +10,13 @@ TRUSTED = [
     "zero Stack; identity comparison against an interior node of a stack is modelled as false (such nodes are never targets); "
     "a stack that is pushed to after it was embedded in another error (aliasing of the live head, cf. Collector.Resolve, C13) "
     "is outside the model and the driver never does it",
+    "errors.Is guards its == with reflectlite.TypeOf(target).Comparable() (standard library): the uncomparable slice-/map-based "
+    "user error types (TypedU) are therefore matched only through their own Is method, and == on two of them (which would panic) "
+    "is never evaluated by the modelled code",
+    "fun.Iterator plumbing used by erc.Consume / erc.Stream (ReadOne's context check, AddError into the iterator's own ers.Stack, "
+    "Observe = Join(Close(), loop error, ParsePanic(recover()))) is transcribed in observe_loop and belongs to C02; the driver's "
+    "scripted producer (item / failing source / cancel-then-item) is deterministic, no timing involved; context.Canceled is one "
+    "pointer error (id 90); erc.WithTime (ers/timestamp.go) is not modelled",
     "the only type with an Unwind() []error method in the universe is *ers.Stack, so the precedence of Unwind() over "
     "Unwrap() []error in Stack.Push / internal.Unwind is transcribed but only exercised through *ers.Stack",
     "concurrent Collector: the premise of Conc/LockedObject (Add / Len / Resolve / Iterator are each one critical section under ec.mu; Iterator is modelled as a snapshot taken under the lock) "
@@ -32,7 +39,7 @@ READY = True
 LEVEL_TEXT = ("Machine-checked Coq theorems over all finite error trees: Join is nil iff no constituent was supplied; Join of one "
               "constituent is that constituent; Unwind(Join) = supplied constituents, each once, most recent first; errors.Is on the "
               "result = errors.Is on some operand for every target (both directions) and finds exactly the nodes of the tree; "
-              "errors.As likewise; Ok/Wrap/Wrapf/RemoveOk/Append never drop an error that still holds a constituent, including inner layers obtained with errors.Unwrap; ParsePanic marks every panic except a []error value (refutation proved, known finding); the "
+              "errors.As likewise; erc.Consume/Stream (after Adds through Add/Handler/Check/Collect/When/Recover/RecoverHook) hold exactly what was added, delivered and carried by the iterator; FilterExclude is all-or-nothing; Ok/Wrap/Wrapf/RemoveOk/Append never drop an error that still holds a constituent, including inner layers obtained with errors.Unwrap; ParsePanic marks every panic except a []error value (refutation proved, known finding); the "
               "Collector holds exactly the constituents added, sequentially and (LockedObject instance) for every concurrent trace. "
               "Model tied to /repo by differential correspondence on every run.")
 LEVEL_NOTE = ("Trusted: Coq kernel + vm_compute; hand-written tree model of ers.Stack/Join/Wrap/ParsePanic/internal.Unwind/"
